@@ -17,6 +17,7 @@ Open Scope Z_scope.
 Inductive api :=
 | ATick (t : Z)
 | ACall (o : op)
+| ACalls (os : list op)      (* one request that writes several rows (nested entities): one write message *)
 | AIngest (o : op)
 | ACompute
 | AStream (os : list op).
@@ -26,13 +27,14 @@ Definition batches_of (a : api) : list (list msg) :=
   match a with
   | ATick t => [[MOp (Tick t)]]
   | ACall o => [[MOp o]; [MCompute]]
+  | ACalls os => [map MOp os; [MCompute]]
   | AIngest o => [[MOp o]]
   | ACompute => [[MCompute]]
   | AStream os => map (fun o => [MOp o]) os ++ [[MCompute]]
   end.
 (* does the call promise that everything committed so far has been announced when it is over? *)
 Definition promises (a : api) : bool :=
-  match a with ACall _ | ACompute | AStream _ => true | _ => false end.
+  match a with ACall _ | ACalls _ | ACompute | AStream _ => true | _ => false end.
 
 (* ---- what can be observed: per write the keys whose content changed, per recompute the keys announced ---- *)
 Inductive tev := TW (ks : list lkey) | TE (ks : list lkey) | TQ.
@@ -44,7 +46,7 @@ Fixpoint kinsert_u (k : lkey) (l : list lkey) : list lkey :=
   end.
 Definition ksort_u (l : list lkey) : list lkey := fold_left (fun a k => kinsert_u k a) l [].
 Definition changed_keys (pre post : state) : list lkey :=
-  ksort_u (filter (fun k => negb (nlist_eqb (content pre k) (content post k))) (all_keys pre ++ all_keys post)).
+  filter (fun k => negb (nlist_eqb (content pre k) (content post k))) (ksort_u (all_keys pre ++ all_keys post)).
 
 Definition trace_msg (acc : state * list lkey * list tev) (m : msg) : state * list lkey * list tev :=
   let '(s, pend, tr) := acc in
